@@ -111,6 +111,7 @@ func (c Call) String() string {
 }
 
 type World struct {
+	persistent map[string]error // call signature -> error, see AttachFaultsOpt
 	Ctx     context.Context
 	Opts    *options.Options
 	Clock   *AutoClock
